@@ -142,4 +142,20 @@ def importNodes (isDel : Nat → Bool) (fresh : Nat → Bytes) (st : St) (target
       if checkIDs target [] f1 then sendAll st f1 now else .err "ids"
     else sendAll st (replaceIDs fresh target f1) now
 
+/-! ### the tree a file describes -/
+/-- the pre-order list the parent pointers of a file describe, from node `n` down: `n`, then the entries naming `n` as
+    parent, in file order, each with its own subtree -/
+def rebuild (f : Flat) : Nat → Nat → NodeRec → Flat
+  | 0, _, _ => []
+  | fuel + 1, d, n => (d, n) :: (f.filter (fun x => x.2.parent == n.id)).flatMap (fun x => rebuild f fuel (d + 1) x.2)
+
+
+/-- a file that is the pre-order list of its own parent-pointer tree: traversing it from its first node gives it back
+    (true of every file `ExportNodes` writes from a tree without mirrors; evaluated by the driver on every exported file) -/
+def SelfRebuilding (f : Flat) : Bool :=
+  match f with
+  | [] => true
+  | (d, n) :: _ => rebuild f (f.length + 1) d n == f
+
+
 end Siot.Export
